@@ -106,7 +106,9 @@ def monitor(case, obs):
                 for e2, c2 in x.x[:i]:
                     if e2[0] == "api" and e2[1] == "close_direct": open_close += 1
                     if e2[0] == "api<" and e2[1] == "close_direct": open_close -= 1
-                if len(st) < n and open_close <= 0: return "closed() of %s popped an entry beneath the modal screen (stack %r, %d entries at the call)" % (name, st, n)
+                # ... and so is a CloseScreenSignal the application itself emitted for that screen (dispatched by its own processing call or by the drain)
+                asked = any(e2[0] == "api" and e2[1] == "close_sig" and e2[2] == ev[1] for e2, c2 in x.x[:i])
+                if len(st) < n and open_close <= 0 and not asked: return "closed() of %s popped an entry beneath the modal screen (stack %r, %d entries at the call)" % (name, st, n)
             else:
                 # the same screen object can be both beneath and the modal one (pushed over itself): its callbacks right after its modal entry was popped
                 # (a screen that closes itself while being drawn is still asked for its prompt) are not callbacks of the screen beneath
